@@ -101,8 +101,9 @@ def findings():
 
 
 def c01_present():
-    from props import c01
-    return {f["flag"] for f in c01.findings() if f["present"]}
+    """flags of C01 / C03 that restrict how trees may be built (Concatenated, Sparse, A @ Identity)"""
+    from props import c01, c03
+    return {f["flag"] for f in c01.findings() + c03.findings() if f["present"]}
 
 
 def gen_trees(ctx, n_trees, present):
